@@ -238,6 +238,10 @@ impl CompressedParameterSet {
     }
 
     pub fn from<H: HashChain>(parameters: &[HssParameter<H>]) -> Result<Self, ()> {
+        if parameters.len() > MAX_ALLOWED_HSS_LEVELS {
+            return Err(());
+        }
+
         let mut result = CompressedParameterSet::default();
 
         for (i, parameter) in parameters.iter().enumerate() {
@@ -270,6 +274,12 @@ impl CompressedParameterSet {
 
             let lms = LmsAlgorithm::from(lms_type as u32);
             let lmots = LmotsAlgorithm::from(lmots_type as u32);
+
+            if lms.construct_parameter::<H>().is_none()
+                || lmots.construct_parameter::<H>().is_none()
+            {
+                return Err(());
+            }
 
             result.extend_from_slice(&[HssParameter::new(lmots, lms)]);
         }
